@@ -1,5 +1,6 @@
 // vdump is the media-hook stand-in: it appends its argv and stdin to $VDUMP_OUT as
-// one JSON line, and exits with $VDUMP_EXIT (default 0).
+// one JSON line, and exits with $VDUMP_EXIT (default 0). With $VDUMP_HOLD set it stays
+// alive (like a viewer the user has not closed yet) until that file exists.
 package main
 
 import (
@@ -7,6 +8,7 @@ import (
 	"io"
 	"os"
 	"strconv"
+	"time"
 )
 
 func main() {
@@ -22,6 +24,14 @@ func main() {
 	}
 	if m := os.Getenv("VDUMP_MSG"); m != "" {
 		os.Stdout.WriteString(m)
+	}
+	if h := os.Getenv("VDUMP_HOLD"); h != "" {
+		for i := 0; i < 60000; i++ { // at most a minute
+			if _, err := os.Stat(h); err == nil {
+				break
+			}
+			time.Sleep(time.Millisecond)
+		}
 	}
 	code, _ := strconv.Atoi(os.Getenv("VDUMP_EXIT"))
 	os.Exit(code)
